@@ -11,7 +11,7 @@ RULE = ("synthetic files for the nine vendor importers — Prospa (V1.0/V1.1, ty
         "offsets): header configuration and random samples drawn per case, the binary section produced by the LEAN ENCODER of "
         "the layout model, text headers patched from shipped samples, imported by the real importer and compared "
         "sample-exactly (values, dims, axes) with the array the encoder was given; plus every shipped sample file imports, "
-        "and the Prospa binary / CSV pair imports to the same values; non-trivial = rank >= 2")
+        "and the Prospa binary / CSV pair imports to the same values; VnmrJ parameter files: random parameter lists (single / multi-valued reals, single / multi-line strings, six array styles) written by the Lean writer, read by import_procpar and by the Lean reader, array_coords on both sides, files cut short refused by both; non-trivial = rank >= 2")
 SHIPPED = [("topspin", "topspin/1"), ("topspin", "topspin/3"), ("topspin", "topspin/5"), ("topspin", "topspin/8"), ("topspin", "topspin/20"),
            ("topspin", "topspin/23"), ("topspin", "topspin/304"), ("topspin", "topspin/700"),
            ("prospa", "prospa/toluene_10mM_Tempone/1"), ("prospa", "prospa/10mM_TEMPO_Water/1Pulse_20200929/35"),
@@ -19,6 +19,138 @@ SHIPPED = [("topspin", "topspin/1"), ("topspin", "topspin/3"), ("topspin", "tops
            ("xepr", "bes3t/1D_CW.DSC"), ("xepr", "bes3t/2D_CW.DSC"), ("xepr", "bes3t/DEER.DSC"), ("xepr", "bes3t/HYSCORE.DSC"),
            ("xepr", "bes3t/ESE.DSC"), ("winepr", "parspc/ExampleCW.par"), ("winepr", "parspc/Example2D.par"), ("winepr", "parspc/ExampleESP.par"),
            ("delta", "delta/50percentCHCL3inCDCl3-1-4.jdf"), ("tnmr", "tnmr/1D.tnt"), ("tnmr", "tnmr/T1.tnt")]
+
+
+def procpar_correspondence(tier, seed, work):
+    """VnmrJ parameter files: random parameter lists are WRITTEN by the Lean writer (`Procpar.print`), read by the real
+    `import_procpar`, and the same token lines are read by the Lean reader (`Procpar.parse`); then `array_coords` on both sides.
+    Also files cut short, which both readers must refuse."""
+    from common import run_model
+    from dnplab.io.vnmrj import import_procpar, array_coords
+    rng = random.Random(seed * 7919 + 606)
+    mism, fails, n_eval = [], [], 0
+    realpool = ["0", "1", "3", "7", "0.5", "0.1", "2.0", "2.5e-3", "-1.25", "1e3", "12", "400.0", "1.0"]
+    words = ["abc", "s2pul", "two words", "H1", "", "a b c", "x"]
+
+    def rnd_param(name):
+        k = rng.choice(["real", "real", "reals", "str", "strs"])
+        if k == "real":
+            return {"name": name, "k": "real", "v": [rng.choice(realpool)]}
+        if k == "reals":
+            return {"name": name, "k": "reals", "v": [rng.choice(realpool) for _ in range(rng.choice([2, 3, 5, 8]))]}
+        if k == "str":
+            return {"name": name, "k": "str", "v": [rng.choice([w for w in words if " " not in w])]}
+        return {"name": name, "k": "strs", "v": [rng.choice(words) if i else rng.choice([w for w in words if " " not in w])
+                                                 for i in range(rng.choice([2, 3, 4]))]}
+
+    n_files = 40 if tier == "quick" else 400
+    jobs = []
+    for fidx in range(n_files):
+        ps = [rnd_param(nm) for nm in rng.sample(["sw", "np", "nt", "d1", "pw", "tpwr", "seqfil", "comment", "temp", "tn", "gain"], rng.randint(2, 7))]
+        style = fidx % 6     # 0 named array, 1 unnamed, 2 arraydim 1, 3 a describing key missing, 4 named but parameter absent, 5 no array keys
+        nblk = rng.choice([2, 3, 5])
+        if style != 5:
+            name = rng.choice(["d2", "pw", "tpwr"])
+            desc = [{"name": "arraydim", "k": "real", "v": ["1" if style == 2 else rng.choice([str(nblk), "%d.0" % nblk])]},
+                    {"name": "array", "k": "str", "v": [name if style in (0, 4) or (style in (2, 3) and rng.random() < 0.5) else ""]},
+                    {"name": "arraystart", "k": "real", "v": [rng.choice(["0", "1", "0.5"])]},
+                    {"name": "arraystop", "k": "real", "v": [rng.choice([str(nblk - 1), "0", "%d.5" % nblk])]},
+                    {"name": "arraydelta", "k": "real", "v": [rng.choice(["1", "0.5"])]}]
+            if style == 3:
+                desc.pop(rng.randrange(len(desc)))
+            if style == 4 and rng.random() < 0.6:
+                desc.append({"name": "arraymax", "k": "real", "v": [str(nblk + 1)]})
+            ps = [q for q in ps if q["name"] not in ("d2", "pw", "tpwr")]
+            if style in (0, 2, 3):
+                ps.append({"name": name, "k": "reals", "v": rng.sample(["0.5", "0.1", "2.0", "0.25", "4.0", "1.5", "8.0", "3"], nblk)})
+            ps += desc
+            rng.shuffle(ps)
+        jobs.append(ps)
+    outs, _ = run_model([{"op": "procpar", "mode": "print", "params": ps} for ps in jobs])
+    parse_ops, ctx = [], []
+    for ps, o in zip(jobs, outs):
+        n_eval += 1
+        if o.get("outcome") != "ok":
+            mism.append({"diffs": [o.get("outcome")], "ops": [{"procpar": ps}], "stream": -1, "explained_by_known": False}); continue
+        for cut in (0, 1, 2):        # the whole file; the last line missing; the last two lines missing
+            lines = o["lines"][: len(o["lines"]) - cut]
+            d = tempfile.mkdtemp(dir=work)
+            with open(os.path.join(d, "procpar"), "w") as f:
+                for l in lines:
+                    f.write(" ".join(l) + "\n")
+            try:
+                attrs = import_procpar(d)
+                err = None
+            except Exception as e:  # noqa: BLE001
+                attrs, err = None, type(e).__name__
+            toks = [ln.rstrip().split(" ") for ln in open(os.path.join(d, "procpar")).read().split("\n")[:-1]]
+            ones = sorted({t for l in toks for t in l if _is_one(t)})
+            gt = False
+            if attrs is not None:
+                try:
+                    gt = bool(attrs["arraystop"] > attrs["arraystart"])
+                except Exception:  # noqa: BLE001
+                    gt = False
+            parse_ops.append({"op": "procpar", "mode": "parse", "lines": toks, "ones": ones, "stop_gt_start": gt})
+            try:
+                ac = array_coords(attrs) if attrs is not None else None
+            except Exception as e:  # noqa: BLE001
+                ac = ("raise", type(e).__name__)
+            ctx.append((ps, cut, attrs, err, ac))
+    pouts, _ = run_model(parse_ops)
+    for (ps, cut, attrs, err, ac), o, op in zip(ctx, pouts, parse_ops):
+        n_eval += 1
+        diffs = []
+        if o.get("outcome", "").startswith("driver-error"):
+            diffs.append(o["outcome"])
+        elif (err is not None) != o.get("outcome", "").startswith("raise"):
+            diffs.append("raise:impl-%s-model-%s" % (err, o.get("outcome")))
+        elif err is None:
+            want = {}
+            for q in o["params"]:
+                k, v = q["val"]["k"], q["val"]["v"]
+                want[q["name"]] = float(v[0]) if k == "real" else [float(x) for x in v] if k == "reals" else v[0] if k == "str" else list(v)
+            if set(want) != set(attrs):
+                diffs.append("names")
+            else:
+                for nm, wv in want.items():
+                    if attrs[nm] != wv:
+                        diffs.append("value:" + nm); break
+            # the written parameters come back (C06: the header is read as written) — only for the intact file
+            if cut == 0:
+                for q in ps:
+                    wv = float(q["v"][0]) if q["k"] == "real" else [float(x) for x in q["v"]] if q["k"] == "reals" else q["v"][0] if q["k"] == "str" else list(q["v"])
+                    last = [r for r in ps if r["name"] == q["name"]][-1]
+                    if last is q and attrs.get(q["name"]) != wv:
+                        key = "C06:vnmrj-procpar:parameter-not-read-as-written"
+                        fails.append({"key": key, "clause": key, "ops": [{"parameter": q, "got": repr(attrs.get(q["name"]))[:80]}]}); break
+            # array_coords
+            ma = o.get("array")
+            if isinstance(ac, tuple) and ac[0] == "raise":
+                pass      # outside the modelled domain (comparisons between lists …)
+            elif ma is None:
+                if ac is not None and ac[0] is not None:
+                    diffs.append("array:model-none-impl-%s" % ac[0])
+            else:
+                dim, kind, vals = ma
+                if kind == "values":
+                    wc = np.array([float(x) for x in vals]) if len(vals) != 1 or True else None
+                else:
+                    a0, a1, a2 = (float(x) for x in vals)
+                    wc = np.r_[a0: a1 + a2: a2]
+                if ac is None or ac[0] != dim or np.asarray(ac[1]).shape != np.asarray(wc).shape and np.asarray(ac[1]).ndim > 0 \
+                        or (np.asarray(ac[1]).ndim > 0 and not np.array_equal(np.asarray(ac[1], dtype=float), wc)):
+                    diffs.append("array:model-%s-impl-%s" % (ma, None if ac is None else (ac[0], np.asarray(ac[1]).tolist())))
+        if diffs:
+            mism.append({"diffs": diffs, "ops": [{"procpar": ps, "cut": cut}], "stream": -1, "explained_by_known": False})
+    return mism, fails, n_eval
+
+
+def _is_one(t):
+    try:
+        return float(t) == 1
+    except ValueError:
+        return False
 
 
 def run(tier, seed, escalate=False):
@@ -47,6 +179,9 @@ def run(tier, seed, escalate=False):
                 key = "C06:%s:%s" % (c["kit"], diffs[0].split(":")[0])
                 fails.append({"key": key, "clause": key, "ops": [{"kit": c["kit"], "cfg": c["cfg"], "layout": c["L"], "diffs": diffs}]})
                 mism.append({"diffs": diffs, "ops": [{"kit": c["kit"], "cfg": c["cfg"], "layout": c["L"]}], "stream": -1, "explained_by_known": True})
+        # VnmrJ parameter files through the Lean writer / reader and array_coords
+        pm, pf, pn = procpar_correspondence(tier, seed, work)
+        mism += pm; fails += pf; dist["procpar_files"] = pn
         # every shipped sample imports and is consistent
         n_ship = 0
         for fmt, rel in SHIPPED:
@@ -111,12 +246,12 @@ def run(tier, seed, escalate=False):
     for f in fails:
         if f["key"] not in seen:
             seen.add(f["key"]); uniq.append(f)
-    return {"evaluations": len(cases) + n_ship, "distinct_nontrivial": sum(1 for c in cases if len([s for s in c["shape"] if s > 1]) >= 2),
+    return {"evaluations": len(cases) + n_ship + dist.get("procpar_files", 0), "distinct_nontrivial": sum(1 for c in cases if len([s for s in c["shape"] if s > 1]) >= 2),
             "rule": RULE, "samples": [{"kit": cases[0]["kit"], "cfg": cases[0]["cfg"], "layout": cases[0]["L"]},
                                       {"kit": cases[-1]["kit"], "cfg": cases[-1]["cfg"], "layout": cases[-1]["L"]}],
             "traces_validated": len(cases) - len(mism), "mismatches": mism, "impl_failures": uniq,
             "distribution": dict(dist, shipped=n_ship),
-            "unproved_clauses": ["text-header parsers (JCAMP-DX, procpar, DSC, .par, .exp, XML) are covered differentially only",
+            "unproved_clauses": ["text-header parsers (JCAMP-DX, DSC, .par, .exp, XML) are covered differentially only; the VnmrJ procpar reader and array_coords are modelled (token level) and proved",
                                  "CSV is text: synthetic CSV files are written by the harness and compared directly (no byte-level encoder in the model)"],
             "trusted_extra": ["struct / numpy.fromfile byte decoding and IEEE-754 interpretation are L0"]}
 
